@@ -127,6 +127,21 @@ Theorem C14_configured_with_persistent_keepalive_initiates : forall p t j,
 Proof. exact configured_with_persistent_keepalive_initiates. Qed.
 Print Assumptions C14_configured_with_persistent_keepalive_initiates.
 
+(* A fresh (non-retry) initiation sent while the retransmit timer of an earlier
+   initiation is still pending moves that timer: the next retransmission is due
+   5 s + jitter after the fresh one, whatever the old deadline d was (so the
+   chain of retries cannot die inside the new rate-limit window). *)
+Theorem C14_fresh_initiation_rearms_retransmit : forall q i t d sh t1 ids j js T fuel,
+  t <= t1 -> t1 + sh >= t + RekeyTimeout -> sh <= t -> jit_ok j ->
+  let s1 := fst (step (rstate q i t d) (mkev t1 (IShiftHs sh) (0, 0))) in
+  let r2 := step s1 (mkev t1 (ITun ids) j) in
+  let d2 := t1 + RekeyTimeout + ms * fst j in
+  d2 <= T -> T < d2 + RekeyTimeout -> (2 <= fuel)%nat ->
+  snd r2 = [OInit] /\ next_due (fst r2) = Some (TRetransmit, d2) /\
+  snd (idle fuel js T (fst r2)) = [(d2, OInit)].
+Proof. exact fresh_initiation_rearms_retransmit. Qed.
+Print Assumptions C14_fresh_initiation_rearms_retransmit.
+
 (* Data received at t on an established session and nothing sent since:
    exactly one keepalive, at t + 10 s. *)
 Theorem C14_keepalive_after_10s_receive_only : forall s k t id j js T fuel,
